@@ -386,7 +386,7 @@ extern "C"
     int64_t __wrap__ZNSt6chrono3_V212system_clock3nowEv()
     {
         sim::W_clock_reads++;
-        int64_t off = sim::W ? sim::W->cfg.epoch_offset_us * 1000 : 0;
+        int64_t off = sim::W ? sim::W->cfg.epoch_offset_us * 1000 + sim::W->wall_jump_ns : 0;
         return 1'600'000'000'000'000'000LL + off + sim::sim_now_ns();
     }
 }
@@ -1165,7 +1165,7 @@ void World::on_spawn(Task* t)
         t->go_index = g.index;
         // node-indexed faults
         for (auto& f : g.faults)
-            if (f.kind == F_STALL || f.kind == F_TT_POISON) t->node_faults.push_back(f);
+            if (f.kind == F_STALL || f.kind == F_TT_POISON || f.kind == F_WALL_JUMP) t->node_faults.push_back(f);
         std::sort(t->node_faults.begin(), t->node_faults.end(), [](const Fault& a, const Fault& b) { return a.k < b.k; });
         if (g.watch_armed)
         {
@@ -1378,7 +1378,17 @@ void World::check_info(GoRec& g, const std::vector<std::string>& tok, const std:
     while (i < tok.size())
     {
         const std::string& k = tok[i];
-        if (k == "depth" && i + 1 < tok.size()) { ok &= parse_int(tok[i + 1], r.depth); i += 2; }
+        if (k == "depth" && i + 1 < tok.size())
+        {
+            if (!parse_int(tok[i + 1], r.depth))
+            {
+                // "iterations 1,2,... consecutively": an iteration reported as something that is not a (decimal) number is a gap
+                ok = false;
+                violation("C09", "depth-sequence", "'" + g.line + "' in " + g.root.fen() + ": info depth '" + tok[i + 1] + "' is not a number (after depth " +
+                                                       std::to_string(g.infos.empty() ? 0 : g.infos.back().depth) + "): '" + line + "'");
+            }
+            i += 2;
+        }
         else if (k == "score" && i + 2 < tok.size())
         {
             if (tok[i + 1] == "cp") { r.is_mate = false; ok &= parse_int(tok[i + 2], r.score); }
@@ -1599,6 +1609,11 @@ static void apply_node_faults(Task* t, const engine::Position* pos)
         {
             W->clock_ns += f.a * 1000;
             W->counters["fault_stall"]++;
+        }
+        else if (f.kind == F_WALL_JUMP)
+        {
+            W->wall_jump_ns += f.a * 1000;
+            W->counters[f.a < 0 ? "fault_wall_clock_back" : "fault_wall_clock_forward"]++;
         }
         else if (f.kind == F_TT_POISON)
         {
@@ -2124,6 +2139,15 @@ RunResult run_world(const Script& script)
                 }
                 else if (!g.stop_sent)
                 {
+                    // C05: a go with a node limit "is answered".  The engine polls its limits rarely and counts nodes its own
+                    // way, hence the generous factor; a search that has visited a hundred times its budget plus a million
+                    // nodes and is still running (nobody sent a stop) has dropped the limit.
+                    if (g.nodes > 0 && g.nodes <= 5000 && !g.node_limit_flagged && st->nodes > 100 * g.nodes + 1000000)
+                    {
+                        g.node_limit_flagged = true;
+                        world.violation("C05", "node-limit-ignored", "'" + g.line + "' in " + g.root.fen() + ": " + std::to_string(st->nodes) + " node visits, still searching, no stop was sent");
+                        st->force_stop = true;
+                    }
                     // finite time limits: must end on their own
                     int64_t tl = -1;
                     if (!g.infinite && g.depth == 0)
@@ -2151,6 +2175,10 @@ RunResult run_world(const Script& script)
                                 st->force_stop = true;
                             }
                         }
+                    }
+                    else if (g.nodes > 0 && g.nodes <= 5000 && st->nodes <= 100 * g.nodes + 1000000)
+                    {
+                        // a small node limit is a limit: the GUI keeps waiting for the answer it was promised (see above)
                     }
                     else if (st->nodes > world.cfg.node_cap && world.pc < script.ops.size() && script.ops[world.pc].kind == OP_AWAIT_BEST)
                     {
